@@ -32,15 +32,36 @@ Definition lock_depth_of (l : option (nat * nat)) (tid : nat) : nat :=
   end.
 Definition lock_depth (s : state) (tid : nat) : nat := lock_depth_of (s_lock s) tid.
 
+Ltac bools := repeat match goal with
+  | H : _ && _ = true |- _ => apply andb_true_iff in H; destruct H
+  | H : negb _ = true |- _ => apply negb_true_iff in H
+  | H : Nat.eqb _ _ = true |- _ => apply Nat.eqb_eq in H
+  | H : Nat.eqb _ _ = false |- _ => apply Nat.eqb_neq in H
+  end.
+
+Ltac split7 := split; [|split; [|split; [|split; [|split; [|split]]]]].
+
+Ltac thr_upd :=
+  repeat match goal with
+  | |- context [upd _ ?i _ ?i] => rewrite upd_same
+  | H : ?j <> ?i |- context [upd _ ?i _ ?j] => rewrite (upd_other _ _ i _ j H)
+  | H : context [upd _ ?i _ ?i] |- _ => rewrite upd_same in H
+  | H : ?j <> ?i, H' : context [upd _ ?i _ ?j] |- _ => rewrite (upd_other _ _ i _ j H) in H'
+  end.
+
+(* w = true: the weak machine (buckets may vanish under a request in flight) *)
+Section W.
+Variable w : bool.
+
 (* what the abstract flags of a thread mean in a concrete state *)
 Definition sound (d : nat) (c : option factory) (tc : nat) (k : key) (t : thread) (fl : flags) : Prop :=
   d = fl_depth fl /\
   (fl_miss fl = true -> d <> 0 /\ c = None) /\
-  (fl_hit fl = true -> c <> None) /\
+  (w = false -> fl_hit fl = true -> c <> None) /\
   (fl_nodes fl = true -> t_nodes t = Some k) /\
   (fl_fac fl = true -> exists f, t_fac t = Some f /\ f_key f = k) /\
   fl_owes fl = t_pend t /\
-  (t_pend t = true -> d <> 0 /\ tc = 1 /\ c = None).
+  (t_pend t = true -> d <> 0 /\ c = None).
 
 Definition tsound (s : state) (tid : nat) (k : key) (t : thread) (fl : flags) : Prop :=
   sound (lock_depth s tid) (s_cache s k) (s_tcount s k) k t fl.
@@ -58,7 +79,7 @@ Record Inv (s : state) : Prop := mkInv {
       exists n fl, check n fl (t_k (s_thr s tid)) = true /\ tsound s tid k (s_thr s tid) fl;
   inv_count : count_ok s;
   inv_out : forall k e f e', In (k, e, f, e') (s_out s) -> f_key f = k /\ e' = e;
-  inv_err : s_err s = []
+  inv_err : w = false -> s_err s = []
 }.
 
 Lemma inv_init : Inv init.
@@ -82,14 +103,14 @@ Lemma inv_build : forall s s' tid,
   (forall o d, s_lock s' = Some (o, d) -> d <> 0) ->
   (forall j, j <> tid -> lock_depth s' j = lock_depth s j) ->
   (lock_depth s tid = 0 -> forall k, s_cache s' k = s_cache s k /\ s_tcount s' k = s_tcount s k) ->
-  (forall k, s_cache s k <> None -> s_cache s' k <> None) ->
+  (w = false -> forall k, s_cache s k <> None -> s_cache s' k <> None) ->
   (forall k f, s_cache s' k = Some f -> f_key f = k) ->
   (t_req (s_thr s' tid) = None -> s_thr s' tid = idle /\ lock_depth s' tid = 0) ->
   (forall k e, t_req (s_thr s' tid) = Some (k, e) ->
       exists n fl, check n fl (t_k (s_thr s' tid)) = true /\ tsound s' tid k (s_thr s' tid) fl) ->
   count_ok s' ->
   (forall k e f e', In (k, e, f, e') (s_out s') -> f_key f = k /\ e' = e) ->
-  s_err s' = [] ->
+  (w = false -> s_err s' = []) ->
   Inv s'.
 Proof.
   intros s s' tid HI Hthr Hlock Hld Hown Hgrow Hcache Hidle Hself Hcount Hout Herr.
@@ -106,7 +127,7 @@ Proof.
       rewrite Hz in *.
       refine (conj H1 (conj _ (conj _ (conj H4 (conj H5 (conj H6 _)))))).
       * intros Hm; destruct (H2 Hm) as [? _]; contradiction.
-      * intros Hh; apply Hgrow; auto.
+      * intros Hw Hh; apply Hgrow; auto.
       * intros Hp; destruct (H7 Hp) as [? _]; contradiction.
     + assert (Hz : lock_depth s tid = 0) by (apply lock_excl with (i := j); auto).
       destruct (Hown Hz k) as [-> ->]. exact Hsd.
@@ -128,14 +149,6 @@ Qed.
 Lemma lock_depth_self_none : forall tid, lock_depth_of None tid = 0.
 Proof. reflexivity. Qed.
 
-Ltac thr_upd :=
-  repeat match goal with
-  | |- context [upd _ ?i _ ?i] => rewrite upd_same
-  | H : ?j <> ?i |- context [upd _ ?i _ ?j] => rewrite (upd_other _ _ i _ j H)
-  | H : context [upd _ ?i _ ?i] |- _ => rewrite upd_same in H
-  | H : ?j <> ?i, H' : context [upd _ ?i _ ?j] |- _ => rewrite (upd_other _ _ i _ j H) in H'
-  end.
-
 (* a pending witness other than tid survives a change of tid's record *)
 Lemma pend_other : forall (thr : nat -> thread) tid t' j k e,
   t_req (thr j) = Some (k, e) -> t_pend (thr j) = true ->
@@ -146,15 +159,6 @@ Proof.
   - rewrite upd_same; auto.
   - rewrite upd_other by auto; auto.
 Qed.
-
-Ltac bools := repeat match goal with
-  | H : _ && _ = true |- _ => apply andb_true_iff in H; destruct H
-  | H : negb _ = true |- _ => apply negb_true_iff in H
-  | H : Nat.eqb _ _ = true |- _ => apply Nat.eqb_eq in H
-  | H : Nat.eqb _ _ = false |- _ => apply Nat.eqb_neq in H
-  end.
-
-Ltac split7 := split; [|split; [|split; [|split; [|split; [|split]]]]].
 
 (* a step that only changes the moving thread's record (and ghost logs) *)
 Lemma inv_local : forall s tid t' sr tl out k e,
@@ -181,9 +185,9 @@ Qed.
 
 (* the request of tid dies *)
 Lemma inv_abort : forall s tid k e err,
-  Inv s -> t_req (s_thr s tid) = Some (k, e) -> err = false -> Inv (abort s tid err).
+  Inv s -> t_req (s_thr s tid) = Some (k, e) -> (w = false -> err = false) -> Inv (abort s tid err).
 Proof.
-  intros s tid k e err HI Hreq ->.
+  intros s tid k e err HI Hreq Herr.
   destruct (inv_thr _ HI tid k e Hreq) as (n & fl & _ & Hsd).
   destruct Hsd as (S1 & S2 & S3 & S4 & S5 & S6 & S7).
   unfold abort. rewrite Hreq.
@@ -211,7 +215,7 @@ Proof.
       - right. rewrite Hreq in Hr0; inversion Hr0; auto.
       - left. rewrite upd_other; auto. }
     simpl. destruct (t_pend (s_thr s tid)) eqn:Hp.
-    + destruct (S7 eq_refl) as (_ & Htc & Hcn).
+    + destruct (S7 eq_refl) as (_ & Hcn).
       destruct (key_eqb k0 k) eqn:Ek.
       * apply key_eqb_eq in Ek; subst k0. rewrite kupd_same. split; [lia|discriminate].
       * assert (k0 <> k) by (intros ->; rewrite key_eqb_refl in Ek; discriminate).
@@ -220,7 +224,7 @@ Proof.
     + split; auto. intros H1.
       destruct (Hoth H1) as [Hc|(j & e0 & [[Hr0 Hp0]|[_ Hx]])]; [left; auto|right; eauto|discriminate].
   - apply (inv_out _ HI).
-  - apply (inv_err _ HI).
+  - intros Hw. rewrite (Herr Hw). apply (inv_err _ HI Hw).
 Qed.
 
 Lemma lock_owner_depth : forall s tid, lock_depth s tid <> 0 ->
@@ -260,8 +264,8 @@ Proof.
       inversion Hs; subst s'; clear Hs. unfold set_thr.
       apply inv_local with (k := k) (e := e); auto.
       * simpl. destruct (s_cache s k) eqn:Hc.
-        -- eexists n, _; split; [eassumption|]. unfold sound; simpl. split7; auto; try discriminate.
-        -- eexists n, _; split; [eassumption|]. unfold sound; simpl. split7; auto; try discriminate.
+        -- eexists n, _; split; [eassumption|]. unfold sound; simpl. split7; auto; try discriminate; try (intros; discriminate).
+        -- eexists n, _; split; [eassumption|]. unfold sound; simpl. split7; auto; try discriminate; try (intros; discriminate).
            intros Hd; bools. split; auto. congruence.
       * apply (inv_out _ HI).
     + (* IGet *)
@@ -271,7 +275,10 @@ Proof.
         -- simpl. eexists n, _; split; [eassumption|]. unfold sound; simpl. rewrite Hc in *. split7; auto.
            intros _. exists f; split; auto. apply (inv_cache _ HI); auto.
         -- apply (inv_out _ HI).
-      * exfalso. apply S3; auto.
+      * destruct (Bool.bool_dec w false) as [Hw|Hw].
+        -- exfalso. apply (S3 Hw); auto.
+        -- inversion Hs; subst s'. apply inv_abort with (k := k) (e := e); auto.
+           intros Hw'; contradiction.
     + (* ILock *)
       assert (Hnew : forall d', (s_lock s = None /\ d' = 1 \/ exists d, s_lock s = Some (tid, d) /\ d' = S d) ->
                 Inv (mkS (s_cache s) (Some (tid, d')) (upd (s_thr s) tid
@@ -293,7 +300,7 @@ Proof.
           fold (lock_depth s tid) in *. unfold sound; simpl. split7; auto.
           + lia.
           + intros Hm. destruct (S2 Hm). split; auto; lia.
-          + intros Hp. destruct (S7 Hp) as (? & ? & ?). split; auto; lia.
+          + intros Hp. destruct (S7 Hp) as (? & ?). split; auto; lia.
         - apply count_keep with (s := s); simpl; auto.
           + apply (inv_count _ HI).
           + intros j k0 e0 Hr0 Hp0. apply pend_other; auto.
@@ -324,7 +331,7 @@ Proof.
         -- rewrite upd_same; simpl. try rewrite Hreq; discriminate.
         -- rewrite upd_same; simpl. intros k0 e0 Hr0. try rewrite Hreq in Hr0; inversion Hr0; subst k0 e0.
            eexists n, _; split; [eassumption|]. unfold tsound, lock_depth; simpl.
-           unfold sound; simpl. split7; auto; try discriminate.
+           unfold sound; simpl. split7; auto; try discriminate; try (intros; discriminate).
            intros Hp. congruence.
         -- apply count_keep with (s := s); simpl; auto.
            ++ apply (inv_count _ HI).
@@ -343,7 +350,7 @@ Proof.
            eexists n, _; split; [eassumption|]. unfold tsound, lock_depth; simpl. rewrite Nat.eqb_refl.
            unfold sound; simpl. split7; auto.
            ++ intros Hm. destruct (S2 Hm). split; auto.
-           ++ intros Hp. destruct (S7 Hp) as (? & ? & ?). split; auto.
+           ++ intros Hp. destruct (S7 Hp) as (? & ?). split; auto.
         -- apply count_keep with (s := s); simpl; auto.
            ++ apply (inv_count _ HI).
            ++ intros j k0 e0 Hr0 Hp0. apply pend_other; auto.
@@ -371,7 +378,7 @@ Proof.
       * rewrite upd_same; simpl. intros k0 e0 Hr0. try rewrite Hreq in Hr0; inversion Hr0; subst k0 e0.
         eexists n, _; split; [eassumption|]. unfold tsound, lock_depth; simpl.
         fold (lock_depth s tid). rewrite kupd_same. unfold sound; simpl. split7; auto;
-          try (intros _; split; auto; split; auto; lia).
+          try (intros _; split; auto).
       * intros k0; simpl. destruct (key_eqb k0 k) eqn:Ek.
         -- apply key_eqb_eq in Ek; subst k0. rewrite kupd_same. split; [lia|].
            intros _. right. exists tid, e. rewrite upd_same; simpl. auto.
@@ -396,14 +403,14 @@ Proof.
       * intros j Hj; rewrite upd_other; auto.
       * apply (inv_lock _ HI).
       * intros; contradiction.
-      * intros k0 Hk0. unfold kupd. destruct (key_eqb k0 k); auto; discriminate.
+      * intros _ k0 Hk0. unfold kupd. destruct (key_eqb k0 k); auto; discriminate.
       * intros k0 f0. unfold kupd. destruct (key_eqb k0 k) eqn:Ek.
         -- apply key_eqb_eq in Ek; subst k0. intros Hin; inversion Hin; subst; auto.
         -- apply (inv_cache _ HI).
       * rewrite upd_same; simpl. try rewrite Hreq; discriminate.
       * rewrite upd_same; simpl. intros k0 e0 Hr0. try rewrite Hreq in Hr0; inversion Hr0; subst k0 e0.
         eexists n, _; split; [eassumption|]. unfold tsound, lock_depth; simpl.
-        fold (lock_depth s tid). rewrite kupd_same. unfold sound; simpl. split7; auto; try discriminate.
+        fold (lock_depth s tid). rewrite kupd_same. unfold sound; simpl. split7; auto; try discriminate; try (intros; discriminate).
         intros _. exists f; auto.
       * intros k0; simpl. destruct (inv_count _ HI k0) as [C1 C2]. split; auto.
         intros Hone. destruct (key_eqb k0 k) eqn:Ek.
@@ -424,7 +431,7 @@ Proof.
 Qed.
 
 Lemma step_inv : forall p s l s',
-  double_checked p = true -> Inv s -> valid s l -> step p s l = Some s' -> Inv s'.
+  double_checked p = true -> Inv s -> (w = false -> valid s l) -> step p s l = Some s' -> Inv s'.
 Proof.
   intros p s l s' Hp HI Hv Hs. destruct l as [tid k e|tid|tid|c]; simpl in Hs.
   - (* LStart *)
@@ -439,7 +446,7 @@ Proof.
     + rewrite upd_same; simpl. intros k0 e0 Hr0; inversion Hr0; subst k0 e0.
       exists (S (psize p)), fl0. split; [exact Hp|].
       unfold tsound, lock_depth in *; simpl. rewrite Hld0. unfold sound; simpl.
-      split7; auto; discriminate.
+      split7; auto; try discriminate; try (intros; discriminate).
     + apply count_keep with (s := s); simpl; auto.
       * apply (inv_count _ HI).
       * intros j k0 e0 Hr0 Hp0. apply pend_other; auto. intros ->. congruence.
@@ -458,8 +465,12 @@ Proof.
     + apply (inv_idle _ HI).
     + intros tid k e Hr. destruct (inv_thr _ HI tid k e Hr) as (n & fl & Hck & Hsd).
       exists n, fl; split; auto. unfold tsound, lock_depth in *; simpl.
-      assert (Hne : Nat.eqb (fst k) c = false) by (apply Nat.eqb_neq; eapply Hv; eauto).
-      rewrite Hne. exact Hsd.
+      destruct (Nat.eqb (fst k) c) eqn:Hne; [|exact Hsd].
+      destruct Hsd as (S1 & S2 & S3 & S4 & S5 & S6 & S7).
+      refine (conj S1 (conj _ (conj _ (conj S4 (conj S5 (conj S6 _)))))).
+      * intros Hm. destruct (S2 Hm). split; auto.
+      * intros Hw. exfalso. apply Nat.eqb_eq in Hne. exact (Hv Hw tid k e Hr Hne).
+      * intros Hpd. destruct (S7 Hpd). split; auto.
     + intros k; simpl. destruct (Nat.eqb (fst k) c) eqn:E.
       * split; [lia|discriminate].
       * apply (inv_count _ HI).
@@ -467,12 +478,34 @@ Proof.
     + apply (inv_err _ HI).
 Qed.
 
-Theorem reach_inv : forall p, double_checked p = true -> forall s, reach p s -> Inv s.
+(* reachability in the machine selected by w *)
+Inductive reachw (p : prog) : state -> Prop :=
+| reachw_init : reachw p init
+| reachw_step : forall s l s', reachw p s -> (w = false -> valid s l) -> step p s l = Some s' -> reachw p s'.
+
+Theorem reachw_inv : forall p, double_checked p = true -> forall s, reachw p s -> Inv s.
 Proof.
   intros p Hp s HR. induction HR.
   - exact inv_init.
   - eapply step_inv; eauto.
 Qed.
+End W.
+
+Lemma reach_reachw : forall p s, reach p s -> reachw false p s.
+Proof. intros p s HR; induction HR; [constructor|econstructor; eauto]. Qed.
+
+Lemma run_reachw : forall p ls s0 s, reachw true p s0 -> run p s0 ls = Some s -> reachw true p s.
+Proof.
+  intros p ls; induction ls as [|l r IH]; intros s0 s HR Hrun; simpl in *.
+  - inversion Hrun; subst; auto.
+  - destruct (step p s0 l) as [s1|] eqn:Hs; [|discriminate].
+    apply IH with (s0 := s1); auto. eapply reachw_step; eauto. discriminate.
+Qed.
+Lemma reach_weak_reachw : forall p s, reach_weak p s -> reachw true p s.
+Proof. intros p s [ls Hr]. eapply run_reachw; eauto. constructor. Qed.
+
+Theorem reach_inv : forall p, double_checked p = true -> forall s, reach p s -> Inv false s.
+Proof. intros p Hp s HR. apply reachw_inv with (p := p); auto. apply reach_reachw; auto. Qed.
 
 (* ---------------------------------------------------------------- *)
 (* the statements of coq/Properties/C10                              *)
@@ -484,37 +517,41 @@ Hypothesis Hp : double_checked p = true.
 (* successful transformations of a key since the last collection of its code
    class (those of failed requests not counted): never more than one *)
 Theorem transform_at_most_once : forall s, reach p s -> forall k, s_tcount s k <= 1.
-Proof. intros s HR k. apply (inv_count _ (reach_inv p Hp s HR) k). Qed.
+Proof. intros s HR k. apply (inv_count _ _ (reach_inv p Hp s HR) k). Qed.
 
 (* a second transformation can only start when the first one's result is
    neither cached nor about to be: stated on transitions *)
-Theorem transform_only_when_absent : forall s tid k e r,
-  reach p s -> t_req (s_thr s tid) = Some (k, e) -> t_k (s_thr s tid) = ITransform :: r ->
+Theorem transform_only_when_absent_w : forall w s tid k e r,
+  reachw w p s -> t_req (s_thr s tid) = Some (k, e) -> t_k (s_thr s tid) = ITransform :: r ->
   s_cache s k = None /\ s_tcount s k = 0 /\ lock_depth s tid <> 0.
 Proof.
-  intros s tid k e r HR Hreq Hk.
-  pose proof (reach_inv p Hp s HR) as HI.
-  destruct (inv_thr _ HI tid k e Hreq) as (n & fl & Hck & Hsd).
+  intros w s tid k e r HR Hreq Hk.
+  pose proof (reachw_inv w p Hp s HR) as HI.
+  destruct (inv_thr _ _ HI tid k e Hreq) as (n & fl & Hck & Hsd).
   rewrite Hk in Hck. destruct n; [discriminate|]. simpl in Hck. bools.
   destruct Hsd as (S1 & S2 & S3 & S4 & S5 & S6 & S7).
   match goal with H : fl_miss fl = true |- _ => destruct (S2 H) as [Hnz Hcn] end.
   split; auto. split; auto.
-  destruct (inv_count _ HI k) as [C1 C2].
+  destruct (inv_count _ _ HI k) as [C1 C2].
   destruct (Nat.eq_dec (s_tcount s k) 1) as [Hone|]; [|lia].
   destruct (C2 Hone) as [Hc|(j & e0 & Hr0 & Hp0)]; [contradiction|].
-  destruct (inv_thr _ HI j k e0 Hr0) as (n0 & fl0' & _ & Hsj).
+  destruct (inv_thr _ _ HI j k e0 Hr0) as (n0 & fl0' & _ & Hsj).
   destruct Hsj as (_ & _ & _ & _ & _ & _ & T7). destruct (T7 Hp0) as [Hdj _].
   destruct (Nat.eq_dec j tid) as [->|Hj]; [congruence|].
   exfalso. apply Hdj. apply lock_excl with (i := tid); auto.
 Qed.
+Theorem transform_only_when_absent : forall s tid k e r,
+  reach p s -> t_req (s_thr s tid) = Some (k, e) -> t_k (s_thr s tid) = ITransform :: r ->
+  s_cache s k = None /\ s_tcount s k = 0 /\ lock_depth s tid <> 0.
+Proof. intros s tid k e r HR. apply transform_only_when_absent_w with (w := false). apply reach_reachw; auto. Qed.
 
 Theorem cache_coherent : forall s, reach p s ->
   (forall k f, s_cache s k = Some f -> f_key f = k) /\
   (forall k e f e', In (k, e, f, e') (s_out s) -> f_key f = k).
 Proof.
   intros s HR. pose proof (reach_inv p Hp s HR) as HI. split.
-  - apply (inv_cache _ HI).
-  - intros k e f e' Hin. apply (inv_out _ HI _ _ _ _ Hin).
+  - apply (inv_cache _ _ HI).
+  - intros k e f e' Hin. apply (inv_out _ _ HI _ _ _ _ Hin).
 Qed.
 
 Theorem no_alias : forall s, reach p s ->
@@ -524,8 +561,8 @@ Theorem no_alias : forall s, reach p s ->
 Proof.
   intros s HR k1 e1 f1 b1 k2 e2 f2 b2 H1 H2.
   pose proof (reach_inv p Hp s HR) as HI.
-  destruct (inv_out _ HI _ _ _ _ H1) as [A1 B1].
-  destruct (inv_out _ HI _ _ _ _ H2) as [A2 B2].
+  destruct (inv_out _ _ HI _ _ _ _ H1) as [A1 B1].
+  destruct (inv_out _ _ HI _ _ _ _ H2) as [A2 B2].
   split; auto. split; auto. intros Hne Heq. subst f2. congruence.
 Qed.
 
@@ -533,18 +570,36 @@ Theorem no_stale : forall s, reach p s ->
   forall c o e f e', In ((c, o), e, f, e') (s_out s) -> fst (f_key f) = c /\ snd (f_key f) = o.
 Proof.
   intros s HR c o e f e' Hin.
-  destruct (inv_out _ (reach_inv p Hp s HR) _ _ _ _ Hin) as [A _]. rewrite A; auto.
+  destruct (inv_out _ _ (reach_inv p Hp s HR) _ _ _ _ Hin) as [A _]. rewrite A; auto.
 Qed.
 
 Theorem no_error : forall s, reach p s -> s_err s = [].
-Proof. intros s HR. apply (inv_err _ (reach_inv p Hp s HR)). Qed.
+Proof. intros s HR. apply (inv_err _ _ (reach_inv p Hp s HR)). reflexivity. Qed.
 
 Theorem lock_released : forall s, reach p s ->
   forall o d, s_lock s = Some (o, d) -> t_req (s_thr s o) <> None.
 Proof.
   intros s HR o d Hl Hn. pose proof (reach_inv p Hp s HR) as HI.
-  destruct (inv_idle _ HI o Hn) as [_ Hz]. unfold lock_depth, lock_depth_of in Hz.
-  rewrite Hl, Nat.eqb_refl in Hz. apply (inv_lock _ HI _ _ Hl). exact Hz.
+  destruct (inv_idle _ _ HI o Hn) as [_ Hz]. unfold lock_depth, lock_depth_of in Hz.
+  rewrite Hl, Nat.eqb_refl in Hz. apply (inv_lock _ _ HI _ _ Hl). exact Hz.
+Qed.
+
+(* the weak machine: buckets may be collected under a request in flight.  A
+   request may then die of KeyError (see keyerror_under_alias_gc_refuted), but
+   everything else survives: at most one transformation per key and epoch, and
+   whatever is cached or handed out belongs to the asking request *)
+Theorem weak_machine_safe : forall s, reach_weak p s ->
+  (forall k, s_tcount s k <= 1) /\
+  (forall k f, s_cache s k = Some f -> f_key f = k) /\
+  (forall k e f e', In (k, e, f, e') (s_out s) -> f_key f = k /\ e' = e) /\
+  (forall o d, s_lock s = Some (o, d) -> t_req (s_thr s o) <> None).
+Proof.
+  intros s HR. pose proof (reachw_inv true p Hp s (reach_weak_reachw p s HR)) as HI.
+  split; [intros k; apply (inv_count _ _ HI k)|].
+  split; [apply (inv_cache _ _ HI)|].
+  split; [apply (inv_out _ _ HI)|].
+  intros o d Hl Hn. destruct (inv_idle _ _ HI o Hn) as [_ Hz]. unfold lock_depth, lock_depth_of in Hz.
+  rewrite Hl, Nat.eqb_refl in Hz. apply (inv_lock _ _ HI _ _ Hl). exact Hz.
 Qed.
 End Main.
 
